@@ -8,6 +8,7 @@ namespace ExprModel.Parser
 structure TbOK (tb : Tables) : Prop where
   coherent : ∀ o o' q a a', tb.binary.lookup o = some (q, a) → tb.binary.lookup o' = some (q, a') → a = a'
   un_pos : ∀ o pu a, tb.unary.lookup o = some (pu, a) → 0 < pu
+  bin_pos : ∀ o q a, tb.binary.lookup o = some (q, a) → 0 < q
   bin_follow : ∀ o qa, tb.binary.lookup o = some qa → o ≠ "." ∧ o ≠ "?." ∧ o ≠ "[" ∧ o ≠ "(" ∧ o ≠ "?"
   un_val : ∀ o x, tb.unary.lookup o = some x → o ≠ "#" ∧ o ≠ "." ∧ o ≠ ":" ∧ o ≠ ","
   no_quest : tb.binary.lookup "?" = none
